@@ -565,7 +565,18 @@ func (c *Ctx) flushDiscipline() {
 		name := FuncName(fn)
 		for _, call := range Calls(fn) {
 			cc := call.Common()
-			if !cc.IsInvoke() || !committing[cc.Method.Name()] || !embedded(cc.Value, 0) {
+			direct := cc.IsInvoke() && committing[cc.Method.Name()] && embedded(cc.Value, 0)
+			// the embedded writer handed to somebody who writes to it (io.Copy,
+			// io.WriteString, fmt.Fprint…, an encoder)
+			handed := false
+			if !direct {
+				for _, a := range cc.Args {
+					if embedded(a, 0) {
+						handed = true
+					}
+				}
+			}
+			if !direct && !handed {
 				continue
 			}
 			at := call.(ssa.Instruction)
@@ -577,9 +588,14 @@ func (c *Ctx) flushDiscipline() {
 				return rel.B != nil && rel.Pol && loadsField(rel.B, "hasWritten")
 			}}
 			if p := q.Find(); p != nil {
-				r.Bad("C11.flush-first", name, "underlying "+cc.Method.Name(), posf(c, call), "the embedded writer is made to send ("+cc.Method.Name()+") with hasWritten==false and without putClientState(): the header goes out before the queued session/cookie changes, which are then lost", c.P.DescribePath(p)...)
+				what := "handed to " + Callee(call)
+				if direct {
+					what = cc.Method.Name()
+				}
+				_ = what
+				r.Bad("C11.flush-first", name, "underlying "+methodOrCallee(call), posf(c, call), "the embedded writer is made to send ("+methodOrCallee(call)+") with hasWritten==false and without putClientState(): the header goes out before the queued session/cookie changes, which are then lost", c.P.DescribePath(p)...)
 			} else {
-				r.Ok("C11.flush-first", name, "underlying "+cc.Method.Name(), posf(c, call), "every path first flushes or has already flushed")
+				r.Ok("C11.flush-first", name, "underlying "+methodOrCallee(call), posf(c, call), "every path first flushes or has already flushed")
 			}
 		}
 	}
@@ -1004,4 +1020,11 @@ func queueAddr(v ssa.Value, d int) bool {
 		return true
 	}
 	return false
+}
+
+func methodOrCallee(call ssa.CallInstruction) string {
+	if call.Common().IsInvoke() {
+		return call.Common().Method.Name()
+	}
+	return Callee(call)
 }
